@@ -151,6 +151,41 @@ type Case struct {
 	// cancelled, 2 deadline in the past, 3 carrying values.  slog.TextHandler
 	// (which defines the expected line) ignores it; every record is printed.
 	CtxMode int `json:"ctx_mode,omitempty"`
+	// ViaNew: when not zero the root handler is obtained from slogutil.New with
+	// FormatJSONHybrid (the package's other way to get one) instead of
+	// NewJSONHybridHandler; bit 1: Config.Output is left unset and the
+	// documented default, os.Stdout, is a temporary file while New runs; bit 2:
+	// AddTimestamp.  The options then are the ones New documents: the level
+	// and the package's RemoveTime (unless AddTimestamp) and ReplaceLevel.
+	ViaNew int `json:"via_new,omitempty"`
+}
+
+// hasLevelKey reports whether any attribute of the case is keyed "level": the
+// package's ReplaceLevel helper type-asserts such values (a precondition of
+// that helper, outside this property), so those cases do not go through New.
+func hasLevelKey(as []AttrSpec) bool {
+	for _, a := range as {
+		if string(a.Key) == slog.LevelKey || hasLevelKey(a.Group) {
+			return true
+		}
+	}
+	return false
+}
+
+func (c Case) anyLevelKey() bool {
+	for _, n := range c.Nodes {
+		if hasLevelKey(n.Attrs) {
+			return true
+		}
+	}
+	for _, r := range c.Records {
+		for _, call := range r.AttrCalls {
+			if hasLevelKey(call) {
+				return true
+			}
+		}
+	}
+	return false
 }
 
 func (c Case) ctx() context.Context {
@@ -170,6 +205,18 @@ func (c Case) ctx() context.Context {
 }
 
 func (c Case) opts() *slog.HandlerOptions {
+	if c.ViaNew != 0 {
+		o := &slog.HandlerOptions{ReplaceAttr: slogutil.ReplaceLevel}
+		if c.ViaNew&4 == 0 {
+			o.ReplaceAttr = func(g []string, a slog.Attr) slog.Attr {
+				return slogutil.ReplaceLevel(g, slogutil.RemoveTime(g, a))
+			}
+		}
+		if !c.NilOpts && !c.NilLevel {
+			o.Level = slog.Level(c.Level)
+		}
+		return o
+	}
 	if c.NilOpts {
 		return nil
 	}
@@ -341,7 +388,30 @@ func checkSequential(c Case) error {
 	buf := &bytes.Buffer{}
 	opts := c.opts()
 	fw := &faultyWriter{buf: buf, failAt: c.FailAt, kind: c.FailKind}
-	root := slogutil.NewJSONHybridHandler(fw, opts)
+	var root slog.Handler = slogutil.NewJSONHybridHandler(fw, opts)
+	var stdout *os.File // the stand-in for os.Stdout, when the handler writes there
+	if c.ViaNew != 0 {
+		cfg := &slogutil.Config{Format: slogutil.FormatJSONHybrid, AddTimestamp: c.ViaNew&4 != 0, Output: fw}
+		if opts.Level != nil {
+			cfg.Level = opts.Level
+		}
+		if c.ViaNew&2 != 0 {
+			f, err := os.CreateTemp("", "vp-c19-stdout-*")
+			if err != nil {
+				return fmt.Errorf("harness: %v", err)
+			}
+			defer os.Remove(f.Name())
+			defer f.Close()
+			stdout, cfg.Output, fw.failAt = f, nil, 0
+			saved := os.Stdout
+			os.Stdout = f
+			root = slogutil.New(cfg).Handler()
+			os.Stdout = saved
+		} else {
+			root = slogutil.New(cfg).Handler()
+		}
+		vp.Class(fmt.Sprintf("seq:handler-from-slogutil.New(mode %d)", c.ViaNew))
+	}
 	nodes := c.tree(root)
 	if err := checkEnabled(c, root); err != nil {
 		return err
@@ -389,6 +459,15 @@ func checkSequential(c Case) error {
 			}
 			if err != nil {
 				return fmt.Errorf("record %d: Handle returned %v", ri, err)
+			}
+			if stdout != nil {
+				b, rerr := os.ReadFile(stdout.Name())
+				if rerr != nil {
+					return fmt.Errorf("harness: %v", rerr)
+				}
+				buf.Write(b)
+				_ = stdout.Truncate(0)
+				_, _ = stdout.Seek(0, 0)
 			}
 			out := buf.String()
 			if !strings.HasSuffix(out, "\n") || strings.Count(out, "\n") != 1 {
@@ -505,8 +584,8 @@ func attrGen(depth int) *rapid.Generator[AttrSpec] {
 	})
 }
 
-func genCase(t *rapid.T, concurrent bool) Case {
-	c := Case{
+func genCase(t *rapid.T, concurrent bool) (c Case) {
+	c = Case{
 		NilOpts:     rapid.IntRange(0, 9).Draw(t, "nilopts") == 0,
 		NilLevel:    rapid.IntRange(0, 4).Draw(t, "nillevel") == 0,
 		Level:       rapid.SampledFrom([]int{-8, -4, 0, 4, 8, 2, -100}).Draw(t, "cfglevel"),
@@ -522,6 +601,15 @@ func genCase(t *rapid.T, concurrent bool) Case {
 		// not the handler's doing.
 		c.FailKind = 1
 	}
+	viaNew := 0
+	if !concurrent && rapid.IntRange(0, 3).Draw(t, "vianew") == 0 {
+		viaNew = rapid.SampledFrom([]int{1, 1, 3, 3, 5, 7}).Draw(t, "vianewmode")
+	}
+	defer func() {
+		if viaNew != 0 && !c.anyLevelKey() {
+			c.ViaNew, c.AddSource = viaNew, false
+		}
+	}()
 	nn := rapid.IntRange(0, 8).Draw(t, "nodes")
 	for i := 0; i < nn; i++ {
 		c.Nodes = append(c.Nodes, NodeSpec{
